@@ -5,7 +5,7 @@
    a connection attempt.  'The network is healthy again' is the schedule of Model/Heal.v.  The fault-reachable set is
    computed and shown closed, so the statements hold after ANY finite fault history - no bound on its length. *)
 From Coq Require Import List Bool ZArith.
-Require Import GV.Gen.LifecycleRules GV.Model.Lifecycle GV.Proofs.LifecycleP GV.Model.Heal GV.Proofs.HealP.
+Require Import GV.Gen.LifecycleRules GV.Model.Lifecycle GV.Proofs.LifecycleP GV.Model.Heal GV.Proofs.HealP GV.Model.LifecycleI GV.Proofs.LifecycleIP GV.Proofs.HealIP.
 Require GV.Model.Request.
 Import ListNotations.
 
@@ -31,6 +31,18 @@ Proof. exact pump_never_dies. Qed.
 Theorem c09_unreachable_is_reported : forall c ls s, runS (entered c) ls = Some s -> st s = CONNECTED ->
   exists s', stepS s (Ext RUNNING_PING_NO_RESPONSE) = Some s' /\ st s' <> CONNECTED.
 Proof. exact unreachable_is_reported. Qed.
+
+(* the same under INTERLEAVINGS (Model/LifecycleI.v: the pump, one task of the connection and one user task inside the manager at
+   once, the client's handler suspended at every delivery for as long as the schedule likes): after ANY schedule of fault labels and
+   task resumptions, once the tasks inside the manager have been resumed to their end the healthy schedule reaches CONNECTED within
+   the same 420 virtual seconds - EXCEPT from the states of finding K10 (a reset that returned with descriptors in place: IDLE,
+   nothing connected, descriptors present, which no branch of the pump leaves) *)
+Theorem c09_heals_after_any_interleaved_fault_schedule : forall ls s,
+  all_fault ls = true -> irun (ientered true) ls = Some s -> k10_shape s = true \/ heals_within 420 s = true.
+Proof. exact interleaved_heal. Qed.
+Example c09_interleaved_nonvacuous :
+  Nat.ltb 5000 (List.length (filter (heals_within 420) ireach9)) = true /\ Nat.ltb 100 (List.length (filter k10_shape ireach9)) = true.
+Proof. exact heal_nonvacuous. Qed.
 
 (* non-vacuity: the fault-reachable set contains every error state and the middle of a connection attempt after a reset *)
 Example c09_nonvacuous :
